@@ -5,7 +5,7 @@ followed by load.go LoadFiles (classification of files, sub-chart grouping, recu
 Parameters (hypothesis: parse ∘ print = id): YAML of Chart.yaml / Chart.lock (opaque here: the
 metadata and lock are carried as the bytes written), values.yaml parsing.
 Not modelled: tar/gzip framing, file modes and times, `.tgz` sub-charts inside charts/,
-requirements.yaml / requirements.lock (Helm 2 layout), .prov files under charts/.
+requirements.yaml (Helm 2 layout), .prov files under charts/.
 -/
 import Helm.Model.ArchivePath
 namespace Helm.ChartIO
@@ -64,7 +64,7 @@ def archiveFiles : List File → Option (List File)
     | _, _ => none
 
 inductive Kind where
-  | chartYaml | chartLock | valuesYaml | schema | template | subchart (cname rest : Str) | strayInCharts | other
+  | chartYaml | chartLock | reqLock | valuesYaml | schema | template | subchart (cname rest : Str) | strayInCharts | other
   deriving Repr, DecidableEq, Inhabited
 
 def startsWith (p s : Str) : Bool := p.isPrefixOf s
@@ -73,6 +73,7 @@ def startsWith (p s : Str) : Bool := p.isPrefixOf s
 def classify (n : Str) : Kind :=
   if n = "Chart.yaml".toList then .chartYaml
   else if n = "Chart.lock".toList then .chartLock
+  else if n = "requirements.lock".toList then .reqLock
   else if n = "values.yaml".toList then .valuesYaml
   else if n = "values.schema.json".toList then .schema
   else if startsWith "templates/".toList n then .template
@@ -99,10 +100,14 @@ structure Acc where
   subs : List (Str × List File) := []
   stray : Bool := false
 
-def accStep (a : Acc) (f : File) : Acc :=
+/-- `apiV1`: what the first pass of `LoadFiles` (Chart.yaml only) found.  The Helm 2 lock file
+requirements.lock is parsed as the lock and, in an apiVersion v1 chart, stays among the files
+(that is how Save writes it back: the v1 lock is not written from `Lock`). -/
+def accStep (apiV1 : Bool) (a : Acc) (f : File) : Acc :=
   match classify f.name with
   | .chartYaml => { a with metaDoc := some f.data }
   | .chartLock => { a with lock := some f.data }
+  | .reqLock => { a with lock := some f.data, files := if apiV1 then a.files ++ [f] else a.files }
   | .valuesYaml => { a with valuesRaw := some f.data }
   | .schema => { a with schema := some f.data }
   | .template => { a with templates := a.templates ++ [f] }
@@ -115,10 +120,10 @@ Sub-chart directories starting with `_` or `.` are skipped.  Fuel bounds the nes
 def loadFiles (apiV1Of : Bytes → Bool) (nameOf : Bytes → Str) : Nat → List File → Option MChart
   | 0, _ => none
   | fuel + 1, fs =>
-    let a := fs.foldl accStep {}
-    match a.metaDoc with
+    match (fs.foldl (accStep false) {}).metaDoc with   -- first pass: Chart.yaml
     | none => none                                   -- "Chart.yaml file is missing"
     | some md =>
+      let a := fs.foldl (accStep (apiV1Of md)) {}
       if a.stray then none                           -- a non-chart file directly under charts/
       else
         let rec loadSubs : List (Str × List File) → Option (List MChart)
